@@ -28,7 +28,10 @@ def task_roman():
     from chempy.printing.numbers import roman
 
     n = Int("n")
-    r = roman(n)
+    try:
+        r = roman(n)  # fast path: straight-line code, "M" * count stays a symbolic segment string, ONE query decides 1..3999
+    except Exception:
+        r = None      # e.g. the code joins the pieces with str.join, branches on a count, ...: decided by the forking fallback below
     res = dict(engine="Z", functions=[env.describe(roman)], obligations=1, discharged=0, violations=[], queries=2, bounds="all n in 1..3999",
                sample={"n": "symbolic 1..3999", "oracle": "sum(value*count) = n and canonical digit-wise counts"})
     tokens = "M CM D CD C XC L XL X IX V IV I".split()
@@ -54,17 +57,62 @@ def task_roman():
         s2.add(nt >= 1, nt <= 3999, z3.Not(cnt["I"] <= 2))
         res["twin"] = "violated" if str(s2.check()) == "sat" else "passed"
     else:
-        v = "struct"
-        res["twin"] = "n/a"
+        # fallback (any implementation): explore the real function with `str * count` decided by solver forks; on every path the
+        # concrete result is parsed into canonical token counts and z3 proves they are the digit-wise counts of EVERY n on that path
+        from vlib.zrun import explore_and_prove, twin_verdict
+
+        def parse(sv):
+            counts, rest = {}, sv
+            for t in tokens:
+                c = 0
+                while rest.startswith(t) and (len(t) == 2 or not any(rest.startswith(t2) for t2 in tokens if len(t2) == 2 and t2[0] == t)):
+                    rest = rest[len(t):]
+                    c += 1
+                counts[t] = c
+            return counts if rest == "" and "".join(t * counts[t] for t in tokens) == sv else None
+
+        nt = n.t
+        d3, d2, d1, d0 = nt / 1000, (nt / 100) % 10, (nt / 10) % 10, nt % 10
+
+        def digit_(cnt, d, nine, five, four, one):
+            return [cnt[nine] == z3.If(d == 9, 1, 0), cnt[five] == z3.If(z3.And(d >= 5, d <= 8), 1, 0), cnt[four] == z3.If(d == 4, 1, 0),
+                    cnt[one] == z3.If(z3.Or(d == 4, d == 9), 0, d % 5)]
+
+        def goal(p, twin=False):
+            if p.kind == "exc" or not isinstance(p.value, str):
+                return False
+            c = parse(p.value)
+            if c is None:
+                return False
+            if twin:
+                c = dict(c, I=c["I"] + 1)
+            return z3.And(*([c["M"] == d3] + digit_(c, d2, "CM", "D", "CD", "C") + digit_(c, d1, "XC", "L", "XL", "X") + digit_(c, d0, "IX", "V", "IV", "I")))
+
+        hi = 3999
+        assum = [nt >= 1, nt <= hi]
+        o = explore_and_prove(lambda: roman(n), assum, goal, max_paths=5000, deadline_s=900, str_mul_fork=9)
+        ot = explore_and_prove(lambda: roman(n), [nt >= 1, nt <= 30], lambda p: goal(p, True), max_paths=100, deadline_s=60, max_fail=1, str_mul_fork=9)
+        res.update(obligations=o.obligations, discharged=o.discharged, queries=o.queries, paths=o.paths, twin=twin_verdict(ot),
+                   bounds="all n in 1..3999 (forking fallback: one path per distinct numeral structure)")
+        if o.failed:
+            v = "sat"
+            fm = o.failed[0][1]
+            fallback_n = model_value(fm, n.t) if fm is not None else 1994
+        elif o.inconclusive:
+            v = "unknown"
+        else:
+            v = "unsat-fallback"
     res["solver_s"] = time.time() - t0
     if v == "unsat":
         res["discharged"] = 1
+        res["status"] = "discharged"
+    elif v == "unsat-fallback":
         res["status"] = "discharged"
     elif v == "unknown":
         res["status"] = "inconclusive"
         res["inconclusive"] = ["roman: solver unknown"]
     else:
-        nv = model_value(s.model(), n.t) if v == "sat" else 1994
+        nv = (model_value(s.model(), n.t) if ok_struct else fallback_n) if v == "sat" else 1994
         res["violations"].append(dict(key="roman", desc="roman(%s) is not the canonical numeral" % nv, replay_src='''
 from chempy.printing.numbers import roman
 n = %d
